@@ -77,6 +77,10 @@ class MaskedStub:
 def shim_argmax(x, axis=None, **k):
     if isinstance(x, MaskedStub):
         vals, mask = x.values, x.mask
+        if mask.shape != vals.shape and mask.size == vals.size:
+            mask = mask.reshape(vals.shape)          # numpy.ma reshapes a mask of the same size
+        if axis is None:
+            vals, mask = vals.reshape(-1), mask.reshape(-1)
         if vals.ndim == 1:
             vals, mask = vals[None], mask[None]
             squeeze = True
